@@ -236,7 +236,8 @@ def run_program(tier, idx, prog=None, plan=None, seed=None):
                         if is_sel is False and ((not flat) or kmo.get('sentinel') or not prog['varargs']):
                             tags['C10-typed-pair'] += 1
                             if same:
-                                viol.append(dict(prop='C10', sig=dict(kind='typed-keys-do-not-separate-types', keymap=kmk, flat=flat, ignore_dstar='**' in ign),
+                                viol.append(dict(prop='C10', sig=dict(kind='typed-keys-do-not-separate-types', keymap=kmk, flat=flat, ignore_dstar='**' in ign,
+                                                                      kwonly=(g[3][0] == 'k' and g[3][1] in sk.KWONLY[:prog['nkw']])),
                                                  msg='%s%r ignore=%r: %r vs %r differ in the type of an argument but share key %.200r' % (
                                                      kmk, kmo, ign, (base['args'], base['kw']), (rec['args'], rec['kw']), eb['key']), item=dict(ci=rec['ci'])))
                     if g[0] == 'mutate':
